@@ -30,7 +30,7 @@ func limProg(u, l []byte, fl interp.Flags) libexec.Prog {
 func TestLimits(t *testing.T) {
 	pbt.Run(t, pbt.Sub[libexec.Prog]{
 		Name:     "limits",
-		EnumDesc: "operation count 199..202 / 499..502 (plain, inside a dead branch, via CHECKMULTISIG-free opcodes only), stack+alt depth 999..1002 (data only, split with the alt stack, produced by DUP chains), script size 9999..10001 for each script, element size 519..521 (pushed, pushed in a dead branch, produced by CAT and NUM2BIN), each in both eras",
+		EnumDesc: "operation count 199..202 / 499..502 (plain, inside a dead branch, via CHECKMULTISIG-free opcodes only), stack+alt depth 999..1002 (data only, split with the alt stack, produced by DUP chains), script size 9999..10001 for each script, element size 519..521 (pushed, pushed in a dead branch, produced by CAT and NUM2BIN), each in both eras; after genesis numeric operands and BIN2NUM results of 749999 / 750000 / 750001 / 751000 / 768000 / 1000000 bytes",
 		Enum: func(tier string, yield func(libexec.Prog)) {
 			for _, fl := range []interp.Flags{0, interp.FlagAfterGenesis, interp.FlagMinimalData} {
 				// operation count
@@ -75,6 +75,18 @@ func TestLimits(t *testing.T) {
 					yield(limProg([]byte{0x51}, cat([]byte{0x00, 0x63}, sgen.Push(d, 0), []byte{0x68}), fl))                                    // pushed in a dead branch
 					yield(limProg(cat(sgen.Push(d[:n-1], 0), sgen.Push(d[:1], 0)), []byte{0x7e, 0x82, 0x75, 0x51}, fl))                         // CAT to n bytes
 					yield(limProg(cat(sgen.Push([]byte{5}, 0), sgen.Push(interp.EncodeNum(bigInt(n)), 0)), []byte{0x80, 0x82, 0x75, 0x51}, fl)) // NUM2BIN to n bytes
+				}
+			}
+			// after genesis numbers may be up to 750 000 bytes long: operands and BIN2NUM results one
+			// below, on, one above and well above that length
+			for _, fl := range []interp.Flags{interp.FlagAfterGenesis, interp.FlagAfterGenesis | interp.FlagMinimalData} {
+				for _, n := range []int{749999, 750000, 750001, 751000, 768000, 1000000} {
+					d := make([]byte, n)
+					d[0], d[n-1] = 0x07, 0x01                                                                                    // minimal, positive
+					yield(limProg(sgen.Push(d, 0), []byte{0x8b, 0x82, 0x75, 0x51}, fl))                                          // 1ADD SIZE DROP 1
+					yield(limProg(sgen.Push(d, 0), []byte{0x00, 0x93, 0x75, 0x51}, fl))                                          // 0 ADD DROP 1
+					yield(limProg(sgen.Push(d, 0), []byte{0x91, 0x51}, fl))                                                      // NOT 1 (unary, boolean result)
+					yield(limProg(sgen.Push(append(append([]byte{}, d...), 0x00, 0x00), 0), []byte{0x81, 0x82, 0x75, 0x51}, fl)) // BIN2NUM to n bytes
 				}
 			}
 		},
